@@ -1,4 +1,885 @@
 import ScrapliModel.Channel.Chan
 import ScrapliModel.Gen.ChanConsts
+/- Helper lemmas for C01 / C02 (channel).  Property theorems are in C01.lean / C02.lean. -/
 namespace Scrapli.Chan
+open Scrapli
+
+/-! ### splitNL -/
+
+theorem splitNL_ne_nil (b : Bytes) : splitNL b ≠ [] := by
+  cases b with
+  | nil => simp [splitNL]
+  | cons c r =>
+    unfold splitNL
+    split
+    · simp
+    · split <;> simp
+
+theorem splitNL_cons (c : UInt8) (r : Bytes) :
+    splitNL (c :: r) =
+      if c == NL then [] :: splitNL r else (c :: (splitNL r).headD []) :: (splitNL r).tail := by
+  have h := splitNL_ne_nil r
+  conv => lhs; unfold splitNL
+  cases hs : splitNL r with
+  | nil => exact absurd hs h
+  | cons l ls => simp
+
+theorem splitNL_noNL (b : Bytes) (h : NL ∉ b) : splitNL b = [b] := by
+  induction b with
+  | nil => simp [splitNL]
+  | cons c r ih =>
+    have hc : c ≠ NL := fun e => h (by simp [e])
+    have hr : NL ∉ r := fun e => h (by simp [e])
+    rw [splitNL_cons, ih hr]
+    simp [hc]
+
+/-- `split` distributes over a separator -/
+theorem splitNL_append_NL (a b : Bytes) : splitNL (a ++ NL :: b) = splitNL a ++ splitNL b := by
+  induction a with
+  | nil => rw [List.nil_append, splitNL_cons]; simp [splitNL]
+  | cons c r ih =>
+    rw [List.cons_append, splitNL_cons, ih, splitNL_cons]
+    have h := splitNL_ne_nil r
+    by_cases hc : c = NL
+    · simp [hc]
+    · cases hs : splitNL r with
+      | nil => exact absurd hs h
+      | cons l ls => simp [hc]
+
+/-- general concatenation: the last line of `a` and the first line of `b` are glued -/
+theorem splitNL_append (a b : Bytes) :
+    splitNL (a ++ b) =
+      (splitNL a).dropLast ++ ((splitNL a).getLastD [] ++ (splitNL b).headD []) :: (splitNL b).tail := by
+  induction a with
+  | nil =>
+    have h := splitNL_ne_nil b
+    cases hs : splitNL b with
+    | nil => exact absurd hs h
+    | cons l ls => simp [splitNL, hs]
+  | cons c r ih =>
+    rw [List.cons_append, splitNL_cons, ih, splitNL_cons]
+    have h := splitNL_ne_nil r
+    cases hs : splitNL r with
+    | nil => exact absurd hs h
+    | cons l ls =>
+      by_cases hc : c = NL
+      · simp [hc]
+      · cases ls with
+        | nil => simp [hc]
+        | cons l2 ls2 => simp [hc]
+
+/-! ### Quiet: no segment of any line satisfies the line predicate -/
+
+/-- no contiguous segment of any line of `x` satisfies `P` -/
+def Quiet (P : Bytes → Bool) (x : Bytes) : Prop :=
+  ∀ L ∈ splitNL x, ∀ s, s <:+: L → P s = false
+
+theorem infix_of_infix_prefix {s a b : Bytes} (h : s <:+: a) : s <:+: a ++ b :=
+  List.IsInfix.trans h (List.prefix_append a b).isInfix
+
+theorem infix_of_infix_suffix {s a b : Bytes} (h : s <:+: b) : s <:+: a ++ b :=
+  List.IsInfix.trans h (List.suffix_append a b).isInfix
+
+theorem quiet_prefix {P : Bytes → Bool} {y b : Bytes} (h : Quiet P (y ++ b)) : Quiet P y := by
+  intro L hL s hs
+  rw [Quiet, splitNL_append] at h
+  have hne := splitNL_ne_nil y
+  -- L is in dropLast or is the last line
+  rcases List.eq_nil_or_concat (splitNL y) with hnil | ⟨init, last, hcat⟩
+  · exact absurd hnil hne
+  · rw [List.concat_eq_append] at hcat
+    rw [hcat] at hL
+    rw [hcat] at h
+    simp only [List.dropLast_concat, List.getLastD_concat] at h
+    rcases List.mem_append.mp hL with hin | hlast
+    · exact h L (by simp [hin]) s hs
+    · have : L = last := by simpa using hlast
+      subst this
+      exact h (L ++ (splitNL b).headD []) (by simp) s (infix_of_infix_prefix hs)
+
+theorem quiet_suffix {P : Bytes → Bool} {a y : Bytes} (h : Quiet P (a ++ y)) : Quiet P y := by
+  intro L hL s hs
+  rw [Quiet, splitNL_append] at h
+  have hne := splitNL_ne_nil y
+  cases hy : splitNL y with
+  | nil => exact absurd hy hne
+  | cons l ls =>
+    rw [hy] at hL h
+    simp only [List.headD_cons, List.tail_cons] at h
+    rcases List.mem_cons.mp hL with rfl | hin
+    · exact h ((splitNL a).getLastD [] ++ L) (by simp) s (infix_of_infix_suffix hs)
+    · exact h L (by simp [hin]) s hs
+
+theorem quiet_infix {P : Bytes → Bool} {x y : Bytes} (h : Quiet P x) (hy : y <:+: x) : Quiet P y := by
+  obtain ⟨a, b, rfl⟩ := hy
+  exact quiet_suffix (quiet_prefix h)
+
+theorem quiet_any {P : Bytes → Bool} {x : Bytes} (h : Quiet P x) : (splitNL x).any P = false := by
+  rw [List.any_eq_false]
+  intro L hL
+  simp [h L hL L (List.infix_refl L)]
+
+/-! ### the search window -/
+
+theorem takeLast_suffix (d : Nat) (b : Bytes) : takeLast d b <:+ b := List.drop_suffix _ _
+
+theorem takeWhile_prefix' (p : UInt8 → Bool) (w : Bytes) : w.takeWhile p <+: w := List.takeWhile_prefix p
+
+theorem processReadBuf_infix (d : Nat) (b : Bytes) : processReadBuf d b <:+: b := by
+  unfold processReadBuf partitionNL
+  simp only
+  have hw := (takeLast_suffix d b).isInfix
+  split
+  · exact List.IsInfix.trans (takeWhile_prefix' _ _).isInfix hw
+  · have h1 : ((takeLast d b).dropWhile (· != NL)).drop 1 <:+ takeLast d b :=
+      List.IsSuffix.trans (List.drop_suffix _ _) (List.dropWhile_suffix _)
+    exact List.IsInfix.trans h1.isInfix hw
+
+/-- nothing in a quiet buffer looks like a prompt, whatever the window -/
+theorem window_quiet {P : Bytes → Bool} (d : Nat) {b : Bytes} (h : Quiet P b) :
+    (splitNL (processReadBuf d b)).any P = false :=
+  quiet_any (quiet_infix h (processReadBuf_infix d b))
+
+theorem takeLast_append (d : Nat) (x y : Bytes) (h : y.length ≤ d) :
+    takeLast d (x ++ y) = takeLast (d - y.length) x ++ y := by
+  unfold takeLast
+  rw [List.length_append]
+  have : x.length + y.length - d = x.length - (d - y.length) := by omega
+  rw [this, List.drop_append_of_le_length (by omega)]
+
+/-- what follows the first newline of `w0 ++ NL :: z` ends with the whole of `z` -/
+theorem after_ends (w0 z : Bytes) :
+    ((w0 ++ NL :: z).dropWhile (· != NL)).drop 1 = z ∨
+    ∃ v, ((w0 ++ NL :: z).dropWhile (· != NL)).drop 1 = v ++ NL :: z := by
+  induction w0 with
+  | nil => left; simp
+  | cons c r ih =>
+    by_cases hc : c = NL
+    · right; exact ⟨r, by simp [hc]⟩
+    · have : (c != NL) = true := by simpa using hc
+      simp only [List.cons_append, List.dropWhile_cons, this, ↓reduceIte]
+      exact ih
+
+/-- once a complete last line shorter than the window is there, the window contains it whole -/
+theorem window_keeps_last_line (d : Nat) (x z : Bytes) (hz : z ≠ []) (hnl : NL ∉ z)
+    (hd : z.length < d) : z ∈ splitNL (processReadBuf d (x ++ NL :: z)) := by
+  unfold processReadBuf partitionNL
+  simp only
+  have hw : takeLast d (x ++ NL :: z) = takeLast (d - (z.length + 1)) x ++ NL :: z := by
+    have := takeLast_append d x (NL :: z) (by simp; omega)
+    simpa using this
+  rw [hw]
+  rcases after_ends (takeLast (d - (z.length + 1)) x) z with h | ⟨v, h⟩
+  · rw [h]
+    simp [hz, splitNL_noNL z hnl]
+  · rw [h]
+    simp [splitNL_append_NL, splitNL_noNL z hnl]
+
+/-! ### the read loop -/
+
+theorem readLoop_none_of_all_false (stop : Bytes → Bool) :
+    ∀ (cs : List Bytes) (acc : Bytes),
+      (∀ j, 1 ≤ j → j ≤ cs.length → stop (acc ++ (cs.take j).flatten) = false) →
+      readLoop stop acc cs = none := by
+  intro cs
+  induction cs with
+  | nil => intro acc _; rfl
+  | cons c cs ih =>
+    intro acc h
+    unfold readLoop
+    have h1 := h 1 (by omega) (by simp)
+    simp only [List.take_succ_cons, List.take_zero, List.flatten_cons, List.flatten_nil,
+      List.append_nil] at h1
+    simp only [h1]
+    rw [ih (acc ++ c)]
+    · rfl
+    · intro j hj1 hj2
+      have := h (j + 1) (by omega) (by simp; omega)
+      simpa [List.append_assoc] using this
+
+end Scrapli.Chan
+
+namespace Scrapli.Chan
+open Scrapli
+
+/-! ### prompts -/
+
+/-- nothing matches before the last byte of the prompt has arrived: no segment of a proper prefix
+    of `p` satisfies `P` -/
+def NoEarly (P : Bytes → Bool) (p : Bytes) : Prop :=
+  ∀ q, q <+: p → q ≠ p → ∀ s, s <:+: q → P s = false
+
+/-- the prompt followed by any part of its trailing blanks is recognised -/
+def PromptOK (P : Bytes → Bool) (p t : Bytes) : Prop := ∀ t', t' <+: t → P (p ++ t') = true
+
+theorem not_mem_of_prefix {q p : Bytes} (h : q <+: p) (hp : NL ∉ p) : NL ∉ q :=
+  fun hq => hp (h.subset hq)
+
+/-- every proper prefix of `body ++ NL :: p` is quiet -/
+theorem quiet_before_prompt {P : Bytes → Bool} {body p y : Bytes} (hb : Quiet P body)
+    (he : NoEarly P p) (hnl : NL ∉ p) (hy : y <+: body ++ NL :: p) (hlen : y.length < (body ++ NL :: p).length) :
+    Quiet P y := by
+  obtain ⟨r, hr⟩ := hy
+  rcases List.append_eq_append_iff.mp hr with ⟨a', h1, _⟩ | ⟨c', h1, h2⟩
+  · -- y is a prefix of body
+    exact quiet_prefix (h1 ▸ hb)
+  · -- y = body ++ c', NL :: p = c' ++ r
+    subst h1
+    cases c' with
+    | nil => simpa using hb
+    | cons c q =>
+      simp only [List.cons_append, List.cons.injEq] at h2
+      obtain ⟨rfl, hq⟩ := h2
+      have hqp : q <+: p := ⟨r, hq.symm⟩
+      have hne : q ≠ p := by
+        intro e; subst e
+        simp at hlen
+      have hqnl : NL ∉ q := not_mem_of_prefix hqp hnl
+      intro L hL s hs
+      rw [splitNL_append_NL, splitNL_noNL q hqnl] at hL
+      rcases List.mem_append.mp hL with hin | hq'
+      · exact hb L hin s hs
+      · have : L = q := by simpa using hq'
+        subst this
+        exact he L hqp hne s hs
+
+/-- the core of `_read_until_prompt`: over ANY list of pieces whose concatenation is
+    `body ++ NL :: p ++ t`, the loop stops exactly at the first piece boundary at which the whole
+    prompt has arrived; it returns everything up to there and consumes nothing more -/
+theorem readLoop_prompt {P : Bytes → Bool} (pat : Pat) (d : Nat) (body p t : Bytes)
+    (hS : ∀ w, pat.search w = (splitNL w).any P)
+    (hb : Quiet P body) (he : NoEarly P p) (hok : PromptOK P p t)
+    (hnlp : NL ∉ p) (hnlt : NL ∉ t) (hp0 : p ≠ []) (hd : (p ++ t).length < d) :
+    ∀ (cs : List Bytes) (acc : Bytes), acc ++ cs.flatten = body ++ NL :: p ++ t →
+      acc.length < (body ++ NL :: p).length →
+      ∃ k t', t' <+: t ∧ acc ++ (cs.take k).flatten = body ++ NL :: p ++ t' ∧
+        readLoop (promptSeen pat d) acc cs = some (body ++ NL :: p ++ t', k) ∧
+        ∀ j, j < k → (acc ++ (cs.take j).flatten).length < (body ++ NL :: p).length := by
+  intro cs
+  induction cs with
+  | nil =>
+    intro acc h hlen
+    simp only [List.flatten_nil, List.append_nil] at h
+    subst h
+    simp at hlen
+    omega
+  | cons c cs ih =>
+    intro acc h hlen
+    have h' : (acc ++ c) ++ cs.flatten = body ++ NL :: p ++ t := by simpa [List.append_assoc] using h
+    by_cases hlt : (acc ++ c).length < (body ++ NL :: p).length
+    · -- prompt not yet complete: the window is quiet
+      have hpre : acc ++ c <+: body ++ NL :: p := by
+        have h'' : (acc ++ c) ++ cs.flatten = (body ++ NL :: p) ++ t := by simpa using h'
+        exact (List.prefix_of_prefix_length_le ⟨_, h''⟩ ⟨t, rfl⟩ (Nat.le_of_lt hlt))
+      have hq := quiet_before_prompt hb he hnlp hpre hlt
+      have hstop : promptSeen pat d (acc ++ c) = false := by
+        unfold promptSeen; rw [hS]; exact window_quiet d hq
+      obtain ⟨k, t', ht', hk, hrl, hmin⟩ := ih (acc ++ c) h' hlt
+      refine ⟨k + 1, t', ht', ?_, ?_, ?_⟩
+      · simpa [List.append_assoc] using hk
+      · unfold readLoop; simp only [hstop]; rw [hrl]; rfl
+      · intro j hj
+        cases j with
+        | zero => simpa using hlen
+        | succ j =>
+          have := hmin j (by omega)
+          simpa [List.append_assoc] using this
+    · -- the prompt is complete within acc ++ c
+      have hge : (body ++ NL :: p).length ≤ (acc ++ c).length := Nat.le_of_not_lt hlt
+      have h'' : (acc ++ c) ++ cs.flatten = (body ++ NL :: p) ++ t := by simpa using h'
+      have hpre : body ++ NL :: p <+: acc ++ c :=
+        List.prefix_of_prefix_length_le ⟨t, rfl⟩ ⟨_, h''⟩ hge
+      obtain ⟨t', ht'⟩ := hpre
+      have htt : t' <+: t := by
+        rw [← ht', List.append_assoc] at h''
+        exact ⟨cs.flatten, List.append_cancel_left h''⟩
+      have hacc : acc ++ c = body ++ NL :: (p ++ t') := by rw [← ht']; simp
+      have hz : p ++ t' ≠ [] := by simp [hp0]
+      have hznl : NL ∉ p ++ t' := by
+        intro hm
+        rcases List.mem_append.mp hm with h1 | h1
+        · exact hnlp h1
+        · exact hnlt (htt.subset h1)
+      have hzlen : (p ++ t').length < d := by
+        have := htt.length_le
+        simp only [List.length_append] at hd ⊢
+        omega
+      have hstop : promptSeen pat d (acc ++ c) = true := by
+        unfold promptSeen
+        rw [hS, hacc, List.any_eq_true]
+        exact ⟨p ++ t', window_keeps_last_line d body (p ++ t') hz hznl hzlen, hok t' htt⟩
+      refine ⟨1, t', htt, ?_, ?_, ?_⟩
+      · simp [← ht']
+      · unfold readLoop; simp only [hstop, ↓reduceIte]; rw [hacc]; simp
+      · intro j hj
+        have : j = 0 := by omega
+        subst this
+        simpa using hlen
+
+end Scrapli.Chan
+
+namespace Scrapli.Chan
+open Scrapli
+
+/-! ### the echo -/
+
+theorem isInfixB_iff (n h : Bytes) : isInfixB n h = true ↔ n <:+: h := by
+  induction h with
+  | nil => simp [isInfixB]
+  | cons a l ih =>
+    unfold isInfixB
+    rw [Bool.or_eq_true, ih, List.isPrefixOf_iff_prefix, List.infix_cons_iff]
+
+theorem squishBuf_append (a b : Bytes) : squishBuf (a ++ b) = squishBuf a ++ squishBuf b := by
+  simp [squishBuf]
+
+theorem eq_of_infix_of_prefix {i x : Bytes} (h1 : i <:+: x) (h2 : x <+: i) : x = i :=
+  h2.eq_of_length (Nat.le_antisymm h2.length_le h1.length_le)
+
+/-- the core of `_read_until_input` (strict mode): over ANY list of pieces whose concatenation
+    squishes to the squished input, the loop stops exactly at the first piece boundary at which all
+    non-blank bytes of the echo have arrived, and what it leaves unread squishes to nothing -/
+theorem readLoop_echo (input stream : Bytes)
+    (hF : squishBuf stream = squish input) :
+    ∀ (cs : List Bytes) (acc : Bytes), acc ++ cs.flatten = stream → squishBuf acc ≠ squish input →
+      ∃ k, readLoop (inputSeen false input) acc cs = some (acc ++ (cs.take k).flatten, k) ∧
+        squishBuf (acc ++ (cs.take k).flatten) = squish input ∧
+        squishBuf (cs.drop k).flatten = [] ∧
+        ∀ j, j < k → squishBuf (acc ++ (cs.take j).flatten) ≠ squish input := by
+  intro cs
+  induction cs with
+  | nil =>
+    intro acc h hne
+    simp only [List.flatten_nil, List.append_nil] at h
+    subst h
+    exact absurd hF hne
+  | cons c cs ih =>
+    intro acc h hne
+    have h' : (acc ++ c) ++ cs.flatten = stream := by simpa [List.append_assoc] using h
+    have hpre : squishBuf (acc ++ c) <+: squish input := by
+      rw [← hF, ← h', squishBuf_append (acc ++ c)]; exact List.prefix_append _ _
+    by_cases hdone : squishBuf (acc ++ c) = squish input
+    · have hstop : inputSeen false input (acc ++ c) = true := by
+        simp only [inputSeen, Bool.not_false, ↓reduceIte]
+        rw [isInfixB_iff, hdone]; exact List.infix_refl _
+      refine ⟨1, ?_, ?_, ?_, ?_⟩
+      · unfold readLoop; simp [hstop]
+      · simpa using hdone
+      · have : squishBuf (acc ++ c) ++ squishBuf cs.flatten = squish input := by
+          rw [← squishBuf_append, h', hF]
+        rw [hdone] at this
+        simpa using List.append_right_eq_self.mp this
+      · intro j hj
+        have : j = 0 := by omega
+        subst this; simpa using hne
+    · have hstop : inputSeen false input (acc ++ c) = false := by
+        simp only [inputSeen, Bool.not_false, ↓reduceIte]
+        rw [Bool.eq_false_iff]
+        intro hc
+        exact hdone (eq_of_infix_of_prefix ((isInfixB_iff _ _).mp hc) hpre)
+      obtain ⟨k, hrl, hsq, hrest, hmin⟩ := ih (acc ++ c) h' hdone
+      refine ⟨k + 1, ?_, ?_, ?_, ?_⟩
+      · unfold readLoop; simp only [hstop]; rw [hrl]; simp [List.append_assoc]
+      · simpa [List.append_assoc] using hsq
+      · simpa using hrest
+      · intro j hj
+        cases j with
+        | zero => simpa using hne
+        | succ j =>
+          have := hmin j (by omega)
+          simpa [List.append_assoc] using this
+
+/-! ### pieces -/
+
+theorem piecesOf_flatten : ∀ (cuts : List Nat) (avail : Bytes), (piecesOf avail cuts).flatten = avail := by
+  intro cuts
+  induction cuts with
+  | nil => intro avail; cases avail <;> simp [piecesOf]
+  | cons k ks ih =>
+    intro avail
+    cases avail with
+    | nil => simp [piecesOf]
+    | cons a av =>
+      rw [piecesOf]
+      simp only [List.flatten_cons, ih]
+      exact List.take_append_drop _ _
+
+end Scrapli.Chan
+
+namespace Scrapli.Chan
+open Scrapli
+
+/-! ### plain bytes (no CR, no ESC): `Channel.read()` returns them unchanged -/
+
+def Plain (b : Bytes) : Prop := CR ∉ b ∧ ESC ∉ b
+
+theorem chanRead_plain {b : Bytes} (h : Plain b) : chanRead b = b := by
+  unfold chanRead stripCR
+  have h1 : b.filter (· != CR) = b := by
+    rw [List.filter_eq_self]
+    intro a ha
+    have : a ≠ CR := fun e => h.1 (e ▸ ha)
+    simpa using this
+  simp only [h1]
+  have h2 : b.contains ESC = false := by
+    rw [Bool.eq_false_iff]; intro hc
+    exact h.2 (by simpa using hc)
+  rw [h2]; rfl
+
+theorem Plain.sublist {a b : Bytes} (h : Plain b) (hs : a.Sublist b) : Plain a :=
+  ⟨fun x => h.1 (hs.subset x), fun x => h.2 (hs.subset x)⟩
+
+theorem Plain.append {a b : Bytes} (ha : Plain a) (hb : Plain b) : Plain (a ++ b) := by
+  constructor <;> intro h <;> rcases List.mem_append.mp h with h | h
+  · exact ha.1 h
+  · exact hb.1 h
+  · exact ha.2 h
+  · exact hb.2 h
+
+theorem piecesOf_plain : ∀ (cuts : List Nat) (avail : Bytes), Plain avail →
+    (piecesOf avail cuts).map chanRead = piecesOf avail cuts := by
+  intro cuts
+  induction cuts with
+  | nil =>
+    intro avail h
+    cases avail with
+    | nil => simp [piecesOf]
+    | cons a av => simp [piecesOf, chanRead_plain h]
+  | cons k ks ih =>
+    intro avail h
+    cases avail with
+    | nil => simp [piecesOf]
+    | cons a av =>
+      rw [piecesOf]
+      simp only [List.map_cons]
+      rw [chanRead_plain (h.sublist (List.take_sublist _ _)), ih _ (h.sublist (List.drop_sublist _ _))]
+
+theorem pieces_split (cuts : List Nat) (avail : Bytes) (k : Nat) :
+    ((piecesOf avail cuts).take k).flatten ++ ((piecesOf avail cuts).drop k).flatten = avail := by
+  rw [← List.flatten_append, List.take_append_drop, piecesOf_flatten]
+
+/-- the echo read on the wire -/
+theorem readUntil_echo (input : Bytes) (w : Wire) (hpl : Plain w.avail)
+    (hI : squish input ≠ []) (hF : squishBuf w.avail = squish input) :
+    ∃ b1 L cuts', Wire.readUntil (inputSeen false input) w =
+        some (b1, { w with avail := L, cuts := cuts' }) ∧
+      b1 ++ L = w.avail ∧ squishBuf L = [] := by
+  have hne : squishBuf ([] : Bytes) ≠ squish input := by
+    intro h; exact hI (by rw [← h]; rfl)
+  obtain ⟨k, hrl, _, hrest, _⟩ :=
+    readLoop_echo input w.avail hF (piecesOf w.avail w.cuts) [] (by simp [piecesOf_flatten]) hne
+  refine ⟨((piecesOf w.avail w.cuts).take k).flatten, ((piecesOf w.avail w.cuts).drop k).flatten,
+    w.cuts.drop k, ?_, pieces_split _ _ _, hrest⟩
+  unfold Wire.readUntil
+  simp only [piecesOf_plain _ _ hpl]
+  rw [hrl]
+  simp
+
+/-- the prompt read on the wire -/
+theorem readUntil_prompt {P : Bytes → Bool} (pat : Pat) (d : Nat) (body p t : Bytes) (w : Wire)
+    (hav : w.avail = body ++ NL :: p ++ t) (hpl : Plain w.avail)
+    (hS : ∀ x, pat.search x = (splitNL x).any P)
+    (hb : Quiet P body) (he : NoEarly P p) (hok : PromptOK P p t)
+    (hnlp : NL ∉ p) (hnlt : NL ∉ t) (hp0 : p ≠ []) (hd : (p ++ t).length < d) :
+    ∃ t' t'' cuts', t' ++ t'' = t ∧
+      Wire.readUntil (promptSeen pat d) w =
+        some (body ++ NL :: p ++ t', { w with avail := t'', cuts := cuts' }) := by
+  obtain ⟨k, t', ht', hk, hrl, _⟩ :=
+    readLoop_prompt pat d body p t hS hb he hok hnlp hnlt hp0 hd (piecesOf w.avail w.cuts) []
+      (by simp [piecesOf_flatten, hav]) (by simp; omega)
+  have hsplit := pieces_split w.cuts w.avail k
+  simp only [List.nil_append] at hk
+  rw [hk] at hsplit
+  obtain ⟨t'', ht''⟩ := ht'
+  refine ⟨t', ((piecesOf w.avail w.cuts).drop k).flatten, w.cuts.drop k, ?_, ?_⟩
+  · -- (body ++ NL :: p ++ t') ++ rest = body ++ NL :: p ++ t
+    have : (body ++ NL :: p ++ t') ++ ((piecesOf w.avail w.cuts).drop k).flatten
+        = (body ++ NL :: p ++ t') ++ t'' := by
+      rw [hsplit, hav, ← ht'']; simp [List.append_assoc]
+    rw [List.append_cancel_left this, ht'']
+  · unfold Wire.readUntil
+    simp only [piecesOf_plain _ _ hpl]
+    rw [hrl]
+
+end Scrapli.Chan
+
+namespace Scrapli.Chan
+open Scrapli
+
+/-! ### a causal line device (the environment of C01) -/
+
+def isHws (c : UInt8) : Bool := c == 32 || c == 9
+
+/-- echoes what is typed; on the return prints newline, the command's output (if any) and a
+    newline, then its prompt and trailing blanks -/
+structure LineDev where
+  out : Bytes → Bytes
+  prompt : Bytes
+  trail : Bytes
+
+/-- the part of the response before `NL :: prompt` -/
+def LineDev.rbody (dv : LineDev) (line : Bytes) : Bytes :=
+  if (dv.out line).isEmpty then [] else NL :: dv.out line
+
+def LineDev.respond (dv : LineDev) (line : Bytes) : Bytes :=
+  dv.rbody line ++ NL :: dv.prompt ++ dv.trail
+
+/-- reaction to written bytes; the state is the line typed so far -/
+def LineDev.onWrite (dv : LineDev) : Bytes → Bytes → Bytes × Bytes
+  | line, [] => (line, [])
+  | line, c :: rest =>
+    if c == NL then
+      let r := dv.onWrite [] rest
+      (r.1, dv.respond line ++ r.2)
+    else if c == CR then dv.onWrite line rest
+    else
+      let r := dv.onWrite (line ++ [c]) rest
+      (r.1, c :: r.2)
+
+theorem LineDev.onWrite_text (dv : LineDev) : ∀ (input line : Bytes), NL ∉ input → CR ∉ input →
+    dv.onWrite line input = (line ++ input, input) := by
+  intro input
+  induction input with
+  | nil => intro line _ _; simp [LineDev.onWrite]
+  | cons c r ih =>
+    intro line h1 h2
+    have hc1 : c ≠ NL := fun e => h1 (by simp [e])
+    have hc2 : c ≠ CR := fun e => h2 (by simp [e])
+    have hr1 : NL ∉ r := fun e => h1 (by simp [e])
+    have hr2 : CR ∉ r := fun e => h2 (by simp [e])
+    unfold LineDev.onWrite
+    simp [hc1, hc2, ih (line ++ [c]) hr1 hr2]
+
+theorem LineDev.onWrite_return (dv : LineDev) (line : Bytes) :
+    dv.onWrite line [NL] = ([], dv.respond line) := by
+  simp [LineDev.onWrite]
+
+theorem hws_squishBuf {b : Bytes} (h : ∀ x ∈ b, isHws x = true) : squishBuf b = [] := by
+  unfold squishBuf
+  rw [List.filter_eq_nil_iff]
+  intro a ha
+  rw [List.mem_filter, List.mem_map] at ha
+  obtain ⟨⟨x, hx, rfl⟩, _⟩ := ha
+  have := h x hx
+  unfold isHws at this
+  rcases Bool.or_eq_true _ _ |>.mp this with e | e
+  · have e' : x = 32 := by simpa using e
+    subst e'; decide
+  · have e' : x = 9 := by simpa using e
+    subst e'; decide
+
+theorem hws_plain {b : Bytes} (h : ∀ x ∈ b, isHws x = true) : Plain b := by
+  constructor <;> intro hm <;> have := h _ hm <;> revert this <;> decide
+
+theorem hws_noNL {b : Bytes} (h : ∀ x ∈ b, isHws x = true) : NL ∉ b := by
+  intro hm; have := h _ hm; revert this; decide
+
+theorem squishBuf_text {b : Bytes} (h : BS ∉ b) : squishBuf b = squish b := by
+  unfold squishBuf squish
+  congr 1
+  rw [List.filter_eq_self]
+  intro a ha
+  rw [List.mem_map] at ha
+  obtain ⟨x, hx, rfl⟩ := ha
+  have hxb : x ≠ BS := fun e => h (e ▸ hx)
+  unfold lowerByte
+  split
+  · rename_i hr
+    simp only [Bool.and_eq_true, decide_eq_true_eq] at hr
+    simp only [bne_iff_ne, ne_eq]
+    intro e
+    have : x = BS - 32 := by
+      have := congrArg (· - 32) e
+      simpa using this
+    rw [this] at hr
+    revert hr; decide
+  · simpa using hxb
+
+end Scrapli.Chan
+
+namespace Scrapli.Chan
+open Scrapli
+
+theorem ws_of_squish_nil {L : Bytes} (h : squish L = []) : ∀ x ∈ L, isWs x = true := by
+  intro x hx
+  unfold squish at h
+  rw [List.filter_eq_nil_iff] at h
+  have := h (lowerByte x) (List.mem_map.mpr ⟨x, hx, rfl⟩)
+  simp only [Bool.not_eq_true', Bool.not_eq_false] at this
+  unfold lowerByte at this
+  split at this
+  · rename_i hr
+    exfalso
+    simp only [Bool.and_eq_true, decide_eq_true_eq] at hr
+    unfold isWs at this
+    simp only [Bool.or_eq_true, beq_iff_eq] at this
+    obtain ⟨h1, h2⟩ := hr
+    have h1' : (65 : Nat) ≤ x.toNat := by simpa using UInt8.le_iff_toNat_le.mp h1
+    have h2' : x.toNat ≤ 90 := by simpa using UInt8.le_iff_toNat_le.mp h2
+    have hv : (x + 32).toNat = x.toNat + 32 := by
+      rw [UInt8.toNat_add]; simp; omega
+    rcases this with ((((e | e) | e) | e) | e) | e <;>
+      (have := congrArg UInt8.toNat e; rw [hv] at this; simp at this <;> omega)
+  · exact this
+
+/-- what makes a command line, a device and a pattern fit the quantifier of C01 -/
+structure Fits (P : Bytes → Bool) (cfg : Cfg) (dv : LineDev) : Prop where
+  search_lines : ∀ x, cfg.prompt.search x = (splitNL x).any P
+  strict : cfg.rough = false
+  ret : cfg.ret = [NL]
+  blank : ∀ s, squishBuf s = [] → P s = false          -- invisible text is never a prompt
+  noEarly : NoEarly P dv.prompt
+  promptOK : PromptOK P dv.prompt dv.trail
+  prompt_ne : dv.prompt ≠ []
+  prompt_nl : NL ∉ dv.prompt
+  prompt_plain : Plain dv.prompt
+  trail_hws : ∀ x ∈ dv.trail, isHws x = true
+  fits_window : (dv.prompt ++ dv.trail).length < cfg.depth
+
+/-- a command inside the quantifier: printable text whose output contains no prompt-like segment -/
+structure GoodCmd (P : Bytes → Bool) (dv : LineDev) (input : Bytes) : Prop where
+  visible : squish input ≠ []
+  no_nl : NL ∉ input
+  no_bs : BS ∉ input
+  plain : Plain input
+  out_plain : Plain (dv.out input)
+  out_quiet : Quiet P (dv.out input)
+
+theorem squishBuf_infix_nil {s L : Bytes} (hs : s <:+: L) (hL : squishBuf L = []) : squishBuf s = [] := by
+  obtain ⟨a, b, rfl⟩ := hs
+  rw [squishBuf_append, squishBuf_append] at hL
+  have := List.append_eq_nil_iff.mp hL
+  exact (List.append_eq_nil_iff.mp this.1).2
+
+/-- the body in front of the prompt is quiet, whatever blank residue precedes it -/
+theorem quiet_body {P : Bytes → Bool} {cfg : Cfg} {dv : LineDev} (hf : Fits P cfg dv) {input L : Bytes}
+    (hg : GoodCmd P dv input) (hL : squishBuf L = []) (hLnl : NL ∉ L) :
+    Quiet P (L ++ dv.rbody input) := by
+  unfold LineDev.rbody
+  split
+  · -- no output: the body is the blank residue only
+    intro l hl s hs
+    simp only [List.append_nil] at hl
+    rw [splitNL_noNL L hLnl] at hl
+    have : l = L := by simpa using hl
+    subst this
+    exact hf.blank s (squishBuf_infix_nil hs hL)
+  · intro l hl s hs
+    rw [splitNL_append_NL, splitNL_noNL L hLnl] at hl
+    rcases List.mem_append.mp hl with h | h
+    · have : l = L := by simpa using h
+      subst this
+      exact hf.blank s (squishBuf_infix_nil hs hL)
+    · exact hg.out_quiet l h s hs
+
+theorem rbody_plain {dv : LineDev} {input : Bytes} (h : Plain (dv.out input)) : Plain (dv.rbody input) := by
+  unfold LineDev.rbody
+  split
+  · exact ⟨by simp, by simp⟩
+  · constructor
+    · intro hm; rcases List.mem_cons.mp hm with e | e
+      · revert e; decide
+      · exact h.1 e
+    · intro hm; rcases List.mem_cons.mp hm with e | e
+      · revert e; decide
+      · exact h.2 e
+
+theorem nl_cons_plain {b : Bytes} (h : Plain b) : Plain (NL :: b) := by
+  constructor
+  · intro hm; rcases List.mem_cons.mp hm with e | e
+    · revert e; decide
+    · exact h.1 e
+  · intro hm; rcases List.mem_cons.mp hm with e | e
+    · revert e; decide
+    · exact h.2 e
+
+/-- **one `send_input` against the causal device, for every segmentation of the reads**:
+    it completes; it writes the input and one return; the raw result is the device's response
+    (preceded by at most invisible residue, followed by part of the trailing blanks); what is left
+    unread is the rest of the trailing blanks. -/
+theorem sendInput_frames {P : Bytes → Bool} {cfg : Cfg} {dv : LineDev} (hf : Fits P cfg dv)
+    (input : Bytes) (hg : GoodCmd P dv input) (stripPrompt : Bool)
+    (w : Wire) (hres : ∀ x ∈ w.avail, isHws x = true) :
+    ∃ L t' t'' cuts', (∀ x ∈ L, isWs x = true) ∧ NL ∉ L ∧ t' ++ t'' = dv.trail ∧
+      sendInput cfg dv.onWrite input stripPrompt false false (w, []) =
+        some ((L ++ dv.rbody input ++ NL :: dv.prompt ++ t',
+               processOutput cfg (L ++ dv.rbody input ++ NL :: dv.prompt ++ t') stripPrompt),
+              ({ avail := t'', cuts := cuts', writes := w.writes ++ [input, [NL]] }, [])) := by
+  have hne : input ≠ [] := by intro e; exact hg.visible (by rw [e]; rfl)
+  -- phase 1: write the input, read the echo
+  have hw1 : Wire.write dv.onWrite (w, []) input =
+      ({ w with avail := w.avail ++ input, writes := w.writes ++ [input] }, input) := by
+    simp [Wire.write, dv.onWrite_text input [] hg.no_nl hg.plain.1]
+  have hpl1 : Plain (w.avail ++ input) := (hws_plain hres).append hg.plain
+  have hF1 : squishBuf (w.avail ++ input) = squish input := by
+    rw [squishBuf_append, hws_squishBuf hres, squishBuf_text hg.no_bs]; rfl
+  obtain ⟨b1, L, cuts1, hru1, hsplit1, hL⟩ :=
+    readUntil_echo input { w with avail := w.avail ++ input, writes := w.writes ++ [input] }
+      hpl1 hg.visible hF1
+  have hLnl : NL ∉ L := by
+    intro hm
+    have : NL ∈ w.avail ++ input := by
+      have hh : NL ∈ b1 ++ L := List.mem_append_right _ hm
+      rw [hsplit1] at hh; exact hh
+    rcases List.mem_append.mp this with h | h
+    · exact hws_noNL hres h
+    · exact hg.no_nl h
+  have hLpl : Plain L := hpl1.sublist (by
+    have : L.Sublist (b1 ++ L) := List.sublist_append_right _ _
+    rw [hsplit1] at this; exact this)
+  -- phase 2: write the return, read up to the prompt
+  have hw2 : Wire.write dv.onWrite
+      ({ avail := L, cuts := cuts1, writes := w.writes ++ [input] }, input) [NL] =
+      ({ avail := L ++ dv.respond input, cuts := cuts1, writes := w.writes ++ [input, [NL]] }, []) := by
+    simp [Wire.write, dv.onWrite_return]
+  have hav2 : L ++ dv.respond input = (L ++ dv.rbody input) ++ NL :: dv.prompt ++ dv.trail := by
+    simp [LineDev.respond, List.append_assoc]
+  have hpl2 : Plain (L ++ dv.respond input) := by
+    rw [hav2]
+    exact ((hLpl.append (rbody_plain hg.out_plain)).append
+      (nl_cons_plain hf.prompt_plain)).append (hws_plain hf.trail_hws)
+  obtain ⟨t', t'', cuts2, htt, hru2⟩ :=
+    readUntil_prompt cfg.prompt cfg.depth (L ++ dv.rbody input) dv.prompt dv.trail
+      { avail := L ++ dv.respond input, cuts := cuts1, writes := w.writes ++ [input, [NL]] }
+      hav2 hpl2 hf.search_lines (quiet_body hf hg hL hLnl) hf.noEarly hf.promptOK hf.prompt_nl
+      (hws_noNL hf.trail_hws) hf.prompt_ne hf.fits_window
+  have hLbs : BS ∉ L := by
+    intro hm
+    have : BS ∈ w.avail ++ input := by
+      have hh : BS ∈ b1 ++ L := List.mem_append_right _ hm
+      rw [hsplit1] at hh; exact hh
+    rcases List.mem_append.mp this with h | h
+    · have := hres _ h; revert this; decide
+    · exact hg.no_bs h
+  have hLws : ∀ x ∈ L, isWs x = true := ws_of_squish_nil (by rw [← squishBuf_text hLbs]; exact hL)
+  refine ⟨L, t', t'', cuts2, hLws, hLnl, htt, ?_⟩
+  unfold sendInput
+  simp only [hw1, Bool.false_or, hf.strict, hf.ret]
+  have hie : input.isEmpty = false := by simpa using hne
+  simp only [hie, Bool.false_eq_true, ↓reduceIte, hru1, Option.map_some, hw2, hru2]
+
+end Scrapli.Chan
+
+namespace Scrapli.Chan
+open Scrapli
+
+/-! ### the processed result does not depend on the invisible residue / trailing blanks -/
+
+theorem dropWhile_append_all {p : UInt8 → Bool} : ∀ (a b : Bytes), (∀ x ∈ a, p x = true) →
+    (a ++ b).dropWhile p = b.dropWhile p := by
+  intro a
+  induction a with
+  | nil => intro b _; rfl
+  | cons c r ih =>
+    intro b h
+    have hc : p c = true := h c (by simp)
+    simp only [List.cons_append, List.dropWhile_cons, hc, ↓reduceIte]
+    exact ih b (fun x hx => h x (by simp [hx]))
+
+theorem rstrip_append_ws (a b : Bytes) (h : ∀ x ∈ b, isWs x = true) : rstrip (a ++ b) = rstrip a := by
+  unfold rstrip
+  rw [List.reverse_append, dropWhile_append_all _ _ (by simpa using h)]
+
+theorem rstrip_ws {b : Bytes} (h : ∀ x ∈ b, isWs x = true) : rstrip b = [] := by
+  have := rstrip_append_ws [] b h
+  simpa [rstrip] using this
+
+theorem splitlines_last_ne {x z : Bytes} (hz : z ≠ []) (hnl : NL ∉ z) :
+    splitlines (x ++ NL :: z) = splitNL x ++ [z] := by
+  unfold splitlines
+  simp only [splitNL_append_NL, splitNL_noNL z hnl]
+  have : (splitNL x ++ [z]).getLast? = some z := by simp
+  simp [this, hz]
+
+theorem hws_ws {b : Bytes} (h : ∀ x ∈ b, isHws x = true) : ∀ x ∈ b, isWs x = true := by
+  intro x hx
+  have := h x hx
+  unfold isHws at this; unfold isWs
+  rcases Bool.or_eq_true _ _ |>.mp this with e | e <;> simp [e]
+
+/-- residue in front (invisible, no newline) and trailing blanks behind do not change what
+    `_process_output` returns -/
+theorem processOutput_indep (cfg : Cfg) (dv : LineDev) (input L t' : Bytes) (stripPrompt : Bool)
+    (hL : ∀ x ∈ L, isWs x = true) (hLnl : NL ∉ L) (ht : ∀ x ∈ t', isHws x = true)
+    (hp0 : dv.prompt ≠ []) (hpnl : NL ∉ dv.prompt) :
+    processOutput cfg (L ++ dv.rbody input ++ NL :: dv.prompt ++ t') stripPrompt =
+      processOutput cfg (dv.rbody input ++ NL :: dv.prompt) stripPrompt := by
+  have hz : dv.prompt ++ t' ≠ [] := by simp [hp0]
+  have hznl : NL ∉ dv.prompt ++ t' := by
+    intro hm; rcases List.mem_append.mp hm with h | h
+    · exact hpnl h
+    · exact hws_noNL ht h
+  have e1 : L ++ dv.rbody input ++ NL :: dv.prompt ++ t' =
+      (L ++ dv.rbody input) ++ NL :: (dv.prompt ++ t') := by simp [List.append_assoc]
+  have key : (splitlines (L ++ dv.rbody input ++ NL :: dv.prompt ++ t')).map rstrip =
+      (splitlines (dv.rbody input ++ NL :: dv.prompt)).map rstrip := by
+    rw [e1, splitlines_last_ne hz hznl, splitlines_last_ne hp0 hpnl]
+    simp only [List.map_append, List.map_cons, List.map_nil]
+    rw [rstrip_append_ws _ _ (hws_ws ht)]
+    congr 1
+    unfold LineDev.rbody
+    split
+    · have hrl : rstrip L = rstrip [] := by rw [rstrip_ws hL]; rfl
+      simp [splitNL_noNL L hLnl, splitNL, hrl]
+    · rw [splitNL_append_NL, splitNL_noNL L hLnl]
+      have : splitNL (NL :: dv.out input) = [] :: splitNL (dv.out input) := by
+        have := splitNL_append_NL [] (dv.out input)
+        simpa [splitNL] using this
+      rw [this]
+      have hrl : rstrip L = rstrip [] := by rw [rstrip_ws hL]; rfl
+      simp [hrl]
+  unfold processOutput
+  simp only [key]
+
+/-! ### sessions: any sequence of commands -/
+
+/-- `send_command` after `send_command` … on one connection -/
+def runCmds (cfg : Cfg) (dev : σ → Bytes → σ × Bytes) (stripPrompt : Bool) :
+    List Bytes → (Wire × σ) → Option (List (Bytes × Bytes) × (Wire × σ))
+  | [], s => some ([], s)
+  | i :: is, s =>
+    match sendInput cfg dev i stripPrompt false false s with
+    | none => none
+    | some (r, s') => (runCmds cfg dev stripPrompt is s').map (fun x => (r :: x.1, x.2))
+
+/-- the result the property promises for one command: a function of that command alone -/
+def expected (cfg : Cfg) (dv : LineDev) (stripPrompt : Bool) (input : Bytes) : Bytes :=
+  processOutput cfg (dv.rbody input ++ NL :: dv.prompt) stripPrompt
+
+theorem suffix_hws {t t' t'' : Bytes} (h : t' ++ t'' = t) (ht : ∀ x ∈ t, isHws x = true) :
+    (∀ x ∈ t', isHws x = true) ∧ (∀ x ∈ t'', isHws x = true) := by
+  subst h
+  exact ⟨fun x hx => ht x (by simp [hx]), fun x hx => ht x (by simp [hx])⟩
+
+/-- **the session stays in step**: for every list of commands inside the quantifier and every
+    segmentation of all the reads, every command completes, returns exactly its own expected
+    result, the bytes written are exactly each input followed by one return, and only blanks are
+    left unread. -/
+theorem session_in_step {P : Bytes → Bool} {cfg : Cfg} {dv : LineDev} (hf : Fits P cfg dv)
+    (stripPrompt : Bool) :
+    ∀ (inputs : List Bytes), (∀ i ∈ inputs, GoodCmd P dv i) →
+    ∀ (w : Wire), (∀ x ∈ w.avail, isHws x = true) →
+      ∃ rs w', runCmds cfg dv.onWrite stripPrompt inputs (w, []) = some (rs, (w', [])) ∧
+        rs.map (·.2) = inputs.map (expected cfg dv stripPrompt) ∧
+        w'.writes = w.writes ++ (inputs.map (fun i => [i, [NL]])).flatten ∧
+        (∀ x ∈ w'.avail, isHws x = true) := by
+  intro inputs
+  induction inputs with
+  | nil => intro _ w hw; exact ⟨[], w, rfl, rfl, by simp, hw⟩
+  | cons i is ih =>
+    intro hg w hw
+    obtain ⟨L, t', t'', cuts', hLws, hLnl, htt, hsend⟩ :=
+      sendInput_frames hf i (hg i (by simp)) stripPrompt w hw
+    obtain ⟨ht', ht''⟩ := suffix_hws htt hf.trail_hws
+    obtain ⟨rs, w', hrun, hres, hwr, hav⟩ :=
+      ih (fun j hj => hg j (by simp [hj]))
+        { avail := t'', cuts := cuts', writes := w.writes ++ [i, [NL]] } ht''
+    refine ⟨(L ++ dv.rbody i ++ NL :: dv.prompt ++ t',
+              processOutput cfg (L ++ dv.rbody i ++ NL :: dv.prompt ++ t') stripPrompt) :: rs, w', ?_, ?_, ?_, hav⟩
+    · unfold runCmds; rw [hsend]; simp only; rw [hrun]; rfl
+    · simp only [List.map_cons, hres]
+      congr 1
+      exact processOutput_indep cfg dv i L t' stripPrompt hLws hLnl ht' hf.prompt_ne hf.prompt_nl
+    · rw [hwr]; simp [List.append_assoc]
+
 end Scrapli.Chan
